@@ -186,6 +186,18 @@ def look_through_calls(f, t, depth=0):
         return r if r is not None else t
     if t[0] != "proj":
         return t
+    # `helper(..)?` : Try::branch(helper(..)).Continue.0 is helper(..).Ok.0 (or .Some.0 for an Option)
+    if isinstance(t[2], tuple) and t[2][0] == "variant" and t[2][2] == "Continue":
+        inner = mir.strip_refs(t[1])
+        if inner[0] == "call" and isinstance(inner[1], str) and inner[1].endswith("Try>::branch") and inner[2]:
+            src = mir.strip_refs(inner[2][0])
+            if src[0] == "call" and isinstance(src[1], str) and f.facts is not None and f.facts.has_fn(src[1]):
+                r = look_through_calls(f, src, depth + 1)
+                if r is not src:
+                    for vname, vidx in (("Ok", 0), ("Some", 1)):
+                        p = _project(f, r, ("variant", vidx, vname))
+                        if p is not None and not (p[0] == "proj" and p[1] is r):
+                            return ("proj", p, ("variant", 0, "Continue")) if False else p
     b = look_through_calls(f, t[1], depth + 1)
     if b is t[1]:
         return t
